@@ -53,10 +53,24 @@ def parseCoord (j : Json) : Option (Coord Int) :=
   | some x => some (.scalar x)
   | none => (intList? (getD j "t")).map Coord.tuple
 
-/-- flat table `lo, hi, g, lo, hi, g, …` -/
-def guess1 : List Int → Nat → Nat → Int
-  | l :: h :: g :: rest, lo, hi => if l == (lo : Int) && h == (hi : Int) then g else guess1 rest lo hi
+/-- flat table `lo, hi, g, lo, hi, g, …` (first entry of a state wins) -/
+def guess1L : List Int → Nat → Nat → Int
+  | l :: h :: g :: rest, lo, hi => if l == (lo : Int) && h == (hi : Int) then g else guess1L rest lo hi
   | _, _, _ => -1
+
+/-- the same table bucketed by `lo + hi` (long searches visit hundreds of states) -/
+def bucketTab (size : Nat) : List Int → Array (List Int) → Array (List Int)
+  | l :: h :: g :: rest, a =>
+    let k := (l + h).toNat % size
+    bucketTab size rest (a.set! k (a[k]! ++ [l, h, g]))
+  | _, a => a
+
+def guess1 (tab : List Int) : Nat → Nat → Int :=
+  if tab.length ≤ 60 then guess1L tab
+  else
+    let size := tab.length / 3 + 1
+    let a := bucketTab size tab (Array.replicate size [])
+    fun lo hi => guess1L (a[(lo + hi) % size]!) lo hi
 
 /-- flat table `axis, lo, hi, g, axis, lo, hi, g, …` -/
 def guessN : List Int → Nat → Nat → Nat → Int
@@ -162,7 +176,7 @@ def bin1dExtra (j : Json) (arr : List Int) (v : Int) (tab : List Int) : List (St
   let g := guess1 tab
   let base : List (String × Json) :=
     [("vis", Json.bool (visitedInRange g v arr)), ("cnt", ofNat (countLE arr v)),
-     ("inc", Json.bool (decide (StrictInc arr))), ("trace", ofIntList (traceLoop g v arr.toArray 0 (arr.length - 1)))]
+     ("inc", if arr.length ≤ 40 then Json.bool (decide (StrictInc arr)) else Json.null), ("trace", ofIntList (traceLoop g v arr.toArray 0 (arr.length - 1)))]
   let full := match bool? (getD j "full") with
     | some true => [("okat", Json.bool (guessOKAtB arr v g))]
     | _ => []
@@ -170,13 +184,14 @@ def bin1dExtra (j : Json) (arr : List Int) (v : Int) (tab : List Int) : List (St
     | some af, some vb =>
       let fg := floatGuess af (Float.ofBits vb.toUInt64)
       [("fr", resJson (bin1d fg v arr)), ("fvis", Json.bool (visitedInRange fg v arr)),
-       ("fokat", Json.bool (guessOKAtB arr v fg)),
-       ("fg", ofIntList ((tabStates tab).map (fun (p : Nat × Nat) => fg p.1 p.2)))]
+       ("fokat", if arr.length ≤ 40 then Json.bool (guessOKAtB arr v fg) else Json.null),
+       ("fg", ofIntList ((tabStates tab).flatMap (fun (p : Nat × Nat) => [(p.1 : Int), (p.2 : Int), fg p.1 p.2])))]
     | _, _ => []
   let it := match intList? (getD j "arri"), int? (getD j "vali") with
     | some ai, some vi =>
       [("ir", resJson (bin1d (interpGuess ai vi) v arr)),
-       ("rr", resJson (bin1d (roundedGuessArr id (ai.map (fun (i : Int) => (i : Rat))) (vi : Rat)) v arr))]
+       ("rr", if arr.length ≤ 40 then
+          resJson (bin1d (roundedGuessArr id (ai.map (fun (i : Int) => (i : Rat))) (vi : Rat)) v arr) else Json.null)]
     | _, _ => []
   base ++ full ++ fl ++ it
 
